@@ -187,8 +187,17 @@ def build(case):
                 if case.get('pairs0') and 'pair_based' in name:
                     # the optional initial pair probabilities, given explicitly as what the default would be (independent nodes)
                     X0v = kw['X0'] if 'X0' in kw else 1.0 - Y0
-                    kw['XY0'] = np.outer(X0v, Y0)
-                    kw['XX0'] = np.outer(X0v, X0v)
+                    which = case['pairs0']
+                    c.given_pairs = {}
+                    if which in (True, 'both'):
+                        kw['XY0'] = np.outer(X0v, Y0)
+                        kw['XX0'] = np.outer(X0v, X0v)
+                    elif which == 'xy':       # each of the two is documented as separately optional; values other than the default
+                        kw['XY0'] = 0.9 * np.outer(X0v, Y0)
+                        c.given_pairs['XY'] = kw['XY0'].copy()
+                    elif which == 'xx':
+                        kw['XX0'] = 0.9 * np.outer(X0v, X0v)
+                        c.given_pairs['XX'] = kw['XX0'].copy()
     else:
         # direct models fed with oracle ICs
         Ks = ic['Ks']
@@ -340,7 +349,7 @@ def random_ode_case(r, name, nmax=None):
         if ph:
             case['prehistory'] = ph
     case['ic_container'] = r.choice(['list', 'list', 'set', 'tuple', 'frozenset', 'dictkeys'])
-    case['pairs0'] = r.random() < 0.4
+    case['pairs0'] = r.choice([False, False, 'both', 'both', 'xy', 'xx'])
     case['dense_Ks'] = r.random() < 0.5
     if name in ('SIS_heterogeneous_meanfield_from_graph', 'SIR_heterogeneous_meanfield_from_graph') and r.random() < 0.35 and desc['n'] >= 4:
         # degree-class models are routinely fed the raw output of nx.configuration_model (parallel edges, self-loops): the degree counts
